@@ -12,4 +12,5 @@ import GeoVerif.Ops.InputFile
 import GeoVerif.Ops.Proc
 import GeoVerif.Ops.Paths
 import GeoVerif.Ops.Units
+import GeoVerif.Ops.MC
 /-! Everything the driver needs (import-free models + ops). -/
